@@ -93,8 +93,10 @@ def build_harness(name, variant="hook", extra_src=(), extra_flags="", out_name=N
     cfg = os.path.join(BUILD, "cfg")
     outb = os.path.join(BUILD, variant, out_name or name)
     srcs = [os.path.join(HARNESS, name + ".c")] + [os.path.join(HARNESS, s) for s in extra_src]
+    import glob as _glob
+    # harnesses inline code from the public headers (orconce.h): depend on them too
     deps = srcs + [os.path.join(libdir, "liborc.a"), os.path.join(libdir, "liborctest.a"),
-                   os.path.join(HARNESS, "hcommon.h")]
+                   os.path.join(HARNESS, "hcommon.h")] + _glob.glob(os.path.join(REPO, "orc", "*.h"))
     if os.path.exists(outb) and all(os.path.getmtime(outb) >= os.path.getmtime(d)
                                     for d in deps if os.path.exists(d)):
         return outb
